@@ -34,7 +34,8 @@ type c19node struct {
 	Sampling  int    `json:"sampling"` // percent, or -1 adaptive
 	MaxRate   int    `json:"max_rate,omitempty"`
 	SampleSz  int    `json:"sample_size,omitempty"`
-	Discard   bool   `json:"discard"`    // discard pattern matching the /health path / method
+	Discard   bool     `json:"discard"`  // the node discards some paths / methods from tracing
+	Discards  []string `json:"discards"` // its own discard patterns (every node has its own list: options are per middleware)
 	CustomIDs bool   `json:"custom_ids"` // TraceIDFunc/SpanIDFunc options
 	ForwardID bool   `json:"forward_request_id"`
 	ForwardMD bool   `json:"forward_inbound_metadata"` // proxy pattern: inbound headers/metadata are copied to the outbound call
@@ -123,11 +124,10 @@ func runC19(t *verifsim.Tape, cfg engine.Config) *engine.Outcome {
 	nNodes := 1 + t.Draw("nodes", 4)
 	nodes := make([]*c19node, nNodes)
 	nets := make([]*simnet.Net, nNodes)
-	discardRe := regexp.MustCompile(`health`)
 	curChain := func(ctx context.Context) *c19chain { c, _ := ctx.Value(chainKey{}).(*c19chain); return c }
 	for i := range nodes {
 		n := &c19node{Trust: t.Draw("trust", 2) == 0, Limit: []int{0, 0, 1, 2, 3, 5, 8, 16, 64}[t.Draw("limit", 9)],
-			Discard: t.Draw("discard", 3) == 0, CustomIDs: t.Draw("customids", 2) == 0, ForwardID: t.Draw("fwd", 2) == 0, ForwardMD: t.Draw("fwdmd", 3) == 0}
+			Discard: t.Draw("discard", 2) == 0, CustomIDs: t.Draw("customids", 2) == 0, ForwardID: t.Draw("fwd", 2) == 0, ForwardMD: t.Draw("fwdmd", 3) == 0}
 		switch t.Draw("samp", 6) {
 		case 0, 1:
 			n.Sampling = 0
@@ -173,7 +173,14 @@ func runC19(t *verifsim.Tape, cfg engine.Config) *engine.Outcome {
 			topts = append(topts, middleware.MaxSamplingRate(n.MaxRate), middleware.SampleSize(n.SampleSz))
 		}
 		if n.Discard {
-			topts = append(topts, middleware.DiscardFromTrace(discardRe))
+			pool := []string{`health`, `^/work$`, `/a/`, `(?i)LIVEZ`}
+			off := t.Draw("discard-off", len(pool))
+			for k := 0; k < 1+t.Draw("discard-n", 2); k++ {
+				n.Discards = append(n.Discards, pool[(off+k)%len(pool)])
+			}
+			for _, p := range n.Discards {
+				topts = append(topts, middleware.DiscardFromTrace(regexp.MustCompile(p)))
+			}
 		}
 		if n.CustomIDs {
 			topts = append(topts,
@@ -310,7 +317,7 @@ func runC19(t *verifsim.Tape, cfg engine.Config) *engine.Outcome {
 	parity := t.Draw("parity", 3) == 0 // same inputs through HTTP and gRPC, compared hop by hop
 	for i := range chains {
 		c := &c19chain{ID: i, Variant: []string{"http", "http", "grpc-unary", "grpc-stream"}[t.Draw("variant", 4)], Depth: 1 + t.Draw("depth", nNodes)}
-		c.Path = []string{"/work", "/health", "/a/b"}[t.Draw("path", 3)]
+		c.Path = []string{"/work", "/health", "/a/b", "/livez"}[t.Draw("path", 4)]
 		c.RID, c.HasRID = ridValue(t)
 		if t.Draw("intrace", 3) == 0 {
 			c.Trace = "IN-T" + fmt.Sprint(i)
@@ -447,7 +454,14 @@ func runC19(t *verifsim.Tape, cfg engine.Config) *engine.Outcome {
 				}
 				return fresh(id, hop)
 			}
-			discarded := n.Discard && strings.Contains(hop.Path, "health")
+			discarded := false
+			subject := hop.Path // what the patterns are matched against: the URL path, or the gRPC full method
+			if strings.HasPrefix(c.Variant, "grpc") {
+				subject = "/svc" + hop.Path
+			}
+			for _, p := range n.Discards {
+				discarded = discarded || regexp.MustCompile(p).MatchString(subject)
+			}
 			if hop.InTrace != "" {
 				o.Features["trace_inbound"]++
 				if !hop.Traced || hop.Trace != hop.InTrace {
@@ -506,6 +520,19 @@ func runC19(t *verifsim.Tape, cfg engine.Config) *engine.Outcome {
 				trustedA := n.Trust && ha.HasRID && ha.InRID != ""
 				if trustedA && ha.InRID == hb.InRID && ha.RID != hb.RID {
 					o.Violate("parity_request_id", "parity_request_id", "hop %d: %s has request id %q, %s has %q for the same inbound %q", k, a.Variant, ha.RID, b.Variant, hb.RID, ha.InRID)
+				}
+				// (a discard pattern is matched against the URL path over HTTP and against the full method over gRPC:
+				// where the node's patterns judge the two subjects differently the transports legitimately differ)
+				dv := func(subject string) bool {
+					for _, p := range n.Discards {
+						if regexp.MustCompile(p).MatchString(subject) {
+							return true
+						}
+					}
+					return false
+				}
+				if dv(ha.Path) != dv("/svc"+ha.Path) {
+					continue
 				}
 				if ha.InTrace == hb.InTrace && ha.Traced != hb.Traced {
 					o.Violate("parity_traced", "parity_traced", "hop %d: %s traced=%v, %s traced=%v (sampling %d, path %q)", k, a.Variant, ha.Traced, b.Variant, hb.Traced, n.Sampling, ha.Path)
